@@ -12,15 +12,13 @@ import PotasscoVerif.Lemmas.ConvertExt
 namespace PotasscoVerif.C02
 open PotasscoVerif PotasscoVerif.Convert PotasscoVerif.Asp
 
-/-- everything about one step converted with the extension on -/
-theorem step_all_ext (inc : Bool) (ds : List Call) (hx : ∀ d ∈ ds, PlainOk d) :
-    ∃ defs, J (convert true (stepCalls inc ds)) ((rulesOf ds).filter kept) defs ∧
-      XI (preEnd true inc ds) (({} : T).run ds) ∧
+/-- everything about one step converted with the extension on, from the invariants before `endStep` -/
+theorem step_ext_of (inc : Bool) (ds : List Call) (hx : ∀ d ∈ ds, PlainOk d) {defs : List (Nat × Body)}
+    (h1 : J (preEnd true inc ds) ((rulesOf ds).filter kept) defs) (x1 : XI (preEnd true inc ds) (({} : T).run ds)) :
+    J (convert true (stepCalls inc ds)) ((rulesOf ds).filter kept) defs ∧
       extCalls (convert true (stepCalls inc ds)).out =
         (preEnd true inc ds).externs.map (fun a => (finalMap (convert true (stepCalls inc ds)) a, ex (preEnd true inc ds) a)) ∧
-      J (preEnd true inc ds) ((rulesOf ds).filter kept) defs ∧ K (preEnd true inc ds) (srcOuts ds) defs ∧ M (preEnd true inc ds) (minsOf ds) ∧
       FlushShape (preEnd true inc ds).flushMinimize ∧ Steps (abs (preEnd true inc ds)) (abs (convert true (stepCalls inc ds))) := by
-  obtain ⟨defs, h1, k1, m1, x1⟩ := JKM.pre true inc ds hx
   have he : (preEnd true inc ds).ext = true := preEnd_ext true inc ds hx
   have hF : J (convert true (stepCalls inc ds)) ((rulesOf ds).filter kept) defs := by
     rw [convert_step, apply_end _ h1.nofail]
@@ -39,7 +37,7 @@ theorem step_all_ext (inc : Bool) (ds : List Call) (hx : ∀ d ∈ ds, PlainOk d
       | cons a r ih => simpa [minOf] using ih
   have hst : Steps (abs (preEnd true inc ds)) (abs (convert true (stepCalls inc ds))) := by
     rw [convert_step]; exact apply_steps _ _
-  refine ⟨defs, hF, x1, ?_, h1, k1, m1, hshape, hst⟩
+  refine ⟨hF, ?_, hshape, hst⟩
   have h0 := preEnd_noExt true inc ds hx
   have hfl := flush_extCalls (preEnd true inc ds) he x1.m h1.inv h0
   rw [convert_step, apply_end _ h1.nofail, hfl]
@@ -56,6 +54,17 @@ theorem step_all_ext (inc : Bool) (ds : List Call) (hx : ∀ d ∈ ds, PlainOk d
     agree_back hs1 hi1 (agree_final _ hF'.inv)
   have hd1 : a ∈ domOf (preEnd true inc ds).flushMinimize := dom_mono (flushMinimize_steps _) h1.inv a (x1.m a ha)
   rw [sm_agree _ hi1 _ hag a hd1]
+
+theorem step_all_ext (inc : Bool) (ds : List Call) (hx : ∀ d ∈ ds, PlainOk d) :
+    ∃ defs, J (convert true (stepCalls inc ds)) ((rulesOf ds).filter kept) defs ∧
+      XI (preEnd true inc ds) (({} : T).run ds) ∧
+      extCalls (convert true (stepCalls inc ds)).out =
+        (preEnd true inc ds).externs.map (fun a => (finalMap (convert true (stepCalls inc ds)) a, ex (preEnd true inc ds) a)) ∧
+      J (preEnd true inc ds) ((rulesOf ds).filter kept) defs ∧ K (preEnd true inc ds) (srcOuts ds) defs ∧ M (preEnd true inc ds) (minsOf ds) ∧
+      FlushShape (preEnd true inc ds).flushMinimize ∧ Steps (abs (preEnd true inc ds)) (abs (convert true (stepCalls inc ds))) := by
+  obtain ⟨defs, h1, k1, m1, x1⟩ := JKM.pre true inc ds hx
+  obtain ⟨a, b, c, d⟩ := step_ext_of inc ds hx h1 x1
+  exact ⟨defs, a, x1, b, h1, k1, m1, c, d⟩
 
 /-- **C02 (externals passed on)**: with the extension on, the external calls of the emitted step are exactly the pending externals of the
     given step — the atoms declared external while no rule had defined them, in the order of declaration —, each as (image of the atom,
@@ -80,13 +89,13 @@ theorem headsOf_mem (ds : List Call) (a : Nat) : a ∈ headsOf ds ↔ ∃ r ∈ 
     | cons x xs => simp
   · rintro ⟨r, ⟨hr, _⟩, ha⟩; exact ⟨r, hr, ha⟩
 
-/-- the ingredients of `C02_stable_models_ext` in one place: the context, and the translation with the externals' rules on both sides -/
-theorem trans_ext (inc : Bool) (ds : List Call) (hx : ∀ d ∈ ds, PlainOk d) :
-    ∃ defs, J (convert true (stepCalls inc ds)) ((rulesOf ds).filter kept) defs ∧
+/-- the ingredients of `C02_stable_models_ext` in one place: the final invariant, and the translation with the externals' rules on both sides -/
+theorem trans_ext_of (inc : Bool) (ds : List Call) (hx : ∀ d ∈ ds, PlainOk d) {defs : List (Nat × Body)}
+    (h0 : J (preEnd true inc ds) ((rulesOf ds).filter kept) defs) (x1 : XI (preEnd true inc ds) (({} : T).run ds)) :
+    J (convert true (stepCalls inc ds)) ((rulesOf ds).filter kept) defs ∧
       Trans (ctxOf (convert true (stepCalls inc ds)) defs) ((rulesOf ds).filter kept ++ extRules ds) (progOf (convert true (stepCalls inc ds)).out) ∧
-      J (preEnd true inc ds) ((rulesOf ds).filter kept) defs ∧ K (preEnd true inc ds) (srcOuts ds) defs ∧ M (preEnd true inc ds) (minsOf ds) ∧
       FlushShape (preEnd true inc ds).flushMinimize ∧ Steps (abs (preEnd true inc ds)) (abs (convert true (stepCalls inc ds))) := by
-  obtain ⟨defs, hj, x1, hE, h0, hk, hM, hshape, hst⟩ := step_all_ext inc ds hx
+  obtain ⟨hj, hE, hshape, hst⟩ := step_ext_of inc ds hx h0 x1
   have ok := ctx_ok hj
   have tr := ctx_trans hj
   have hdom : ∀ a ∈ (preEnd true inc ds).externs, a ∈ (ctxOf (convert true (stepCalls inc ds)) defs).dom :=
@@ -116,7 +125,16 @@ theorem trans_ext (inc : Bool) (ds : List Call) (hx : ∀ d ∈ ds, PlainOk d) :
         intro b hb; exact hdom b (List.mem_filter.mp hb).1
   have tr2 := PotasscoVerif.C02.Trans.append_ren tr (extRules ds) hQ
   rw [← hout] at tr2
-  exact ⟨defs, hj, tr2, h0, hk, hM, hshape, hst⟩
+  exact ⟨hj, tr2, hshape, hst⟩
+
+theorem trans_ext (inc : Bool) (ds : List Call) (hx : ∀ d ∈ ds, PlainOk d) :
+    ∃ defs, J (convert true (stepCalls inc ds)) ((rulesOf ds).filter kept) defs ∧
+      Trans (ctxOf (convert true (stepCalls inc ds)) defs) ((rulesOf ds).filter kept ++ extRules ds) (progOf (convert true (stepCalls inc ds)).out) ∧
+      J (preEnd true inc ds) ((rulesOf ds).filter kept) defs ∧ K (preEnd true inc ds) (srcOuts ds) defs ∧ M (preEnd true inc ds) (minsOf ds) ∧
+      FlushShape (preEnd true inc ds).flushMinimize ∧ Steps (abs (preEnd true inc ds)) (abs (convert true (stepCalls inc ds))) := by
+  obtain ⟨defs, h1, k1, m1, x1⟩ := JKM.pre true inc ds hx
+  obtain ⟨a, b, c, d⟩ := trans_ext_of inc ds hx h1 x1
+  exact ⟨defs, a, b, h1, k1, m1, c, d⟩
 
 /-- **C02 (answer sets, externals passed on with the extension)**.  For every program step made of rules (all head kinds, normal and weight
     bodies), minimize statements, output, edge and heuristic directives and ANY external directives, converted with the clasp extension on:
